@@ -139,6 +139,7 @@ def password_hash(exe, pw):
 
 # ---------------------------------------------------------------------------------------------- planner
 HELPER = 'zz'
+UNREG = '<conn>'      # the not (yet) registered connection under test
 RANK_LETTER = {'founder': 'q', 'protected': 'a', 'operator': 'o', 'half_oper': 'h', 'voice': 'v'}
 FLAG_LETTER = {'invite_only': 'i', 'moderated': 'm', 'secret': 's', 'protected_topic': 't', 'no_external_messages': 'n'}
 
@@ -212,8 +213,11 @@ def predict(prog, case, model, script):
     outcomes = []
     def conn_of(n):
         if n not in conns:
-            ck = case.get('conn', {}) if n == case.get('actor', spec.nicks[0]) else {}
-            conns[n] = w.add_conn(n, **ck); socks[n] = []
+            if n == UNREG:
+                ck = dict(case.get('conn', {}))
+                conns[n] = w.add_conn(ck.pop('nick', None), key='conn', **ck); socks[n] = []
+            else:
+                conns[n] = w.add_conn(n); socks[n] = []
         return conns[n]
     for n in spec.nicks:
         if model.get(f'reg_{n}', True): conn_of(n)
@@ -238,6 +242,13 @@ def predict(prog, case, model, script):
                     socks[n].extend(list(s.data) for s in c['src'].written[before:])
                     progress = True
                     if r == 'PENDING': break
+                    q = c['quit'].cell.v.fields[0]
+                    if isinstance(q, int) and q != 0:
+                        # the connection task leaves its loop: teardown, as user_state_process does
+                        name = prog.resolve_crate_fn('state::MainState::remove_user')
+                        w.run_to_completion(M.run_fn(name, [Ref(w.main_cell), Ref(c['cell'])]))
+                        c['dead'] = True
+                        break
     for client, line in script:
         c = conn_of(client)
         if c.get('dead'): break
@@ -287,6 +298,9 @@ def replay_witness(run, prog, case, witness, release=False, probes=True):
     spec = Spec(**case.get('spec', {}))
     model = witness['world']
     actor = witness.get('actor', spec.nicks[0])
+    ck = case.get('conn', {})
+    unreg = ck.get('registered', True) is False
+    if unreg: actor = UNREG
     try:
         nicks, need_helper, setup = plan(spec, model)
     except Unreachable as e:
@@ -300,6 +314,19 @@ def replay_witness(run, prog, case, witness, release=False, probes=True):
     srv = Server(exe, make_config(spec, model, pws, HELPER if need_helper else None), run.snap.dir)
     clients = {}
     try:
+        if unreg:
+            # build the half-registered record first (its nick may be claimed before a universe user registers under it)
+            c = Client(srv.port, UNREG); clients[UNREG] = c
+            if ck.get('caps_negotation'): c.send('CAP LS')
+            if ck.get('password'): c.send('PASS ' + ck['password'])
+            if ck.get('nick'): c.send('NICK ' + ck['nick'])
+            if ck.get('name'): c.send(f'USER {ck["name"]} 0 * :Real {ck["name"]}')
+            time.sleep(0.3)
+            pre = c._read_lines(0.5)
+            if any(b' 001 ' in l for l in pre):
+                return None, 'pre-state not reachable through the protocol: the half-registered record completes registration at once'
+            if c.eof:
+                return None, 'pre-state not reachable through the protocol: the connection is closed while building its record'
         order = ([HELPER] if need_helper else []) + nicks
         for n in order:
             c = Client(srv.port, n); clients[n] = c
@@ -313,12 +340,21 @@ def replay_witness(run, prog, case, witness, release=False, probes=True):
         for n in nicks: clients[n].barrier()
         # the step and the probes
         line = witness['line']
-        script = [(actor, line)] + (probes_for(spec, model, actor) if probes else [])
+        if unreg:
+            script = [(actor, line)] + ([(n, f'WHOIS {x}') for n in nicks[:1] for x in list(spec.nicks) + [ck.get('nick') or 'dave']] + [(nicks[0], 'LUSERS')] if probes and nicks else [])
+        else:
+            script = [(actor, line)] + (probes_for(spec, model, actor) if probes else [])
         pred, outcomes = predict(prog, case, model, script)
         native = {n: [] for n in nicks}
+        if unreg: native[UNREG] = []
         for who, ln in script:
             clients[who].send(ln)
-            got = clients[who].barrier()
+            if who == UNREG:
+                time.sleep(0.4)
+                got = clients[who]._read_lines(0.6)
+                if clients[who].eof: got.append(b'<EOF>')
+            else:
+                got = clients[who].barrier()
             native[who].extend(got)
             for n in nicks:
                 if n != who and not clients[n].eof:
@@ -327,9 +363,9 @@ def replay_witness(run, prog, case, witness, release=False, probes=True):
         stderr = srv.stderr_text()
         panicked = 'panicked at' in stderr
         diffs = []
-        for n in nicks:
+        for n in nicks + ([UNREG] if unreg else []):
             want = pred.get(n, [])
-            have = [l for l in native[n]]
+            have = [l for l in native[n] if not (n == UNREG and l == b'<EOF>')]
             if want and want[-1] is None:
                 # predicted panic: connection must die
                 if have and have[-1] == b'<EOF>' and panicked: continue
